@@ -42,8 +42,15 @@ def _static_units():
     return [("inst.cpp", {"VF_KEY": t, "VF_KEYID": i}) for t, i in types] + [("e_static.cpp", {})]
 
 
+def _typed_units(main):
+    types = [("uint8_t", "u8"), ("int8_t", "i8"), ("uint16_t", "u16"), ("int16_t", "i16"), ("uint32_t", "u32"),
+             ("int32_t", "i32"), ("uint64_t", "u64"), ("int64_t", "i64"), ("float", "f32"), ("double", "f64")]
+    return [("inst.cpp", {"VF_KEY": t, "VF_KEYID": i}) for t, i in types] + [(main, {})]
+
+
 ENGINES = {
     "e_static": {"dir": "e_static", "units": _static_units()},
+    "e_seg": {"dir": "e_seg", "units": _typed_units("e_seg.cpp")},
 }
 
 CHECKS = {
@@ -51,6 +58,10 @@ CHECKS = {
             "quick": {"shards": 8, "cases": 4000}, "thorough": {"shards": 16, "cases": 150000}},
     "C02": {"engine": "e_static",
             "quick": {"shards": 8, "cases": 4000}, "thorough": {"shards": 16, "cases": 150000}},
+    "C03": {"engine": "e_seg",
+            "quick": {"shards": 8, "cases": 4000}, "thorough": {"shards": 16, "cases": 120000}},
+    "C04": {"engine": "e_seg",
+            "quick": {"shards": 8, "cases": 2500}, "thorough": {"shards": 16, "cases": 60000}},
     "C07": {"engine": "e_static",
             "quick": {"shards": 8, "cases": 4000}, "thorough": {"shards": 16, "cases": 120000}},
 }
@@ -70,7 +81,17 @@ NOTES = ("All checks: bin/check <ID> <quick|thorough>; VERIF_SEED selects the ra
 _STATIC_NOTE = ("trusted: std::lower_bound over the generated array as oracle; generator domain = DESIGN.md section 3 "
                 "(float keys on an exactly representable lattice m*2^e, e in [-40,40]; double-key duplicate runs capped at 1024 = KF-1); "
                 "n <= 2*10^5; configurations = 14 (Epsilon,EpsilonRecursive,Floating) x 10 key types compiled matrix")
+_SEG_NOTE = ("trusted: 128-bit integer arithmetic of the oracle; ranks < 2^40; sessions with a segment longer than 3000 points or beyond the "
+             "6*10^7 pair-operation budget are counted as unchecked_large, not judged; relies on the PGM_INDEX_VERIF SegSession hook and Access friend")
 DESCR = {
+    "C03": {"level": "generated-input search: every constraint point the builder committed to (captured by the hook) is located in exactly one emitted segment "
+                     "and its residual against the reported line is checked exactly (integers) or in long double with a stated tolerance (floats)",
+            "design_ref": "DESIGN.md section 6 C03", "note": _SEG_NOTE,
+            "technique": "property-based testing with exact 128-bit rational residual oracle"},
+    "C04": {"level": "generated-input search: the emitted segmentation of every chunk / level must equal the greedy segmentation driven by an independent exact "
+                     "feasibility criterion (closed form over all point pairs), which decides feasibility, maximality and minimality at once",
+            "design_ref": "DESIGN.md section 6 C04", "note": _SEG_NOTE,
+            "technique": "property-based testing, differential against an exact rational feasibility oracle"},
     "C01": {"level": "generated-input search: every distinct key of constructively generated sorted arrays (duplicates, chunk seams, "
                      "boundary keys, 1..20 threads) is searched and judged completely against the first-occurrence rank; failures are shrunk to a replay file",
             "design_ref": "DESIGN.md section 6 C01", "note": _STATIC_NOTE,
